@@ -6,7 +6,7 @@
    nesting depth, errors included (C02_render_refines_deep_merge below); the same specification
    is the oracle of the correspondence run. *)
 From RV Require Import Model.Mapping Model.Yaml Model.Interp Model.Run Spec.DeepMerge Proofs.MappingFacts Proofs.MergeFacts
-     Proofs.DeepMergeFacts Proofs.YamlFacts Proofs.Refinement.
+     Proofs.DeepMergeFacts Proofs.YamlFacts Proofs.Refinement Proofs.WfFacts Proofs.Twin Proofs.TwinStack.
 
 Theorem C02_null_replaces_anything : forall ck self, value_merge ck self VNull = Ok VNull.
 Proof. exact merge_null_replaces. Qed.
@@ -91,6 +91,58 @@ Theorem C02_render_refines_deep_merge :
     stack_rel (deep_merge (S f) ys) (m <- Run.merge_layers ys ;; render_with_self F (VMap m)).
 Proof. exact run_value_refines_deep_merge. Qed.
 Eval cbv in "ASSUMPTIONS-OF C02_render_refines_deep_merge"%string. Print Assumptions C02_render_refines_deep_merge.
+
+(** With C04, for stacks that DO contain references: [ytw m y y'] relates two YAML documents that
+    are equal except that, anywhere, reference strings of [y] are replaced in [y'] by a document
+    converting to a closed value the reference renders to against the merged parameters [m]
+    ([denotes]).  The render of the stack is the render of its inlined twin, with the same fuel;
+    and when the twin is in the domain of the refinement theorem (reference-free), it is the
+    specification's deep merge of the twin: the value agrees, and the specification reports no
+    conflict and no constant violation. *)
+Theorem C02_stack_with_references_renders_as_its_inlined_twin :
+  forall F ys ys' m r,
+    Forall clean_layer ys -> Forall clean_layer ys' ->
+    merge_layers_try ys = Ok m -> Forall2 (ytw m) ys ys' ->
+    render_with_self F (VMap m) = Ok r ->
+    exists m', merge_layers_try ys' = Ok m' /\ render_with_self F (VMap m') = Ok r.
+Proof. exact stack_renders_as_its_inlined_twin. Qed.
+Eval cbv in "ASSUMPTIONS-OF C02_stack_with_references_renders_as_its_inlined_twin"%string. Print Assumptions C02_stack_with_references_renders_as_its_inlined_twin.
+
+Theorem C02_stack_with_references_is_the_deep_merge_of_its_inlined_twin :
+  forall f F ys ys' m r,
+    Forall clean_layer ys -> ys' <> [] -> Forall layer_ok ys' ->
+    merge_layers_try ys = Ok m -> Forall2 (ytw m) ys ys' ->
+    render_with_self F (VMap m) = Ok r ->
+    match deep_merge (S f) ys' with
+    | SOk v => unflag r = v
+    | SFuel => True
+    | SErr _ => False
+    end.
+Proof. exact stack_with_references_is_the_deep_merge_of_its_inlined_twin. Qed.
+Eval cbv in "ASSUMPTIONS-OF C02_stack_with_references_is_the_deep_merge_of_its_inlined_twin"%string. Print Assumptions C02_stack_with_references_is_the_deep_merge_of_its_inlined_twin.
+
+(** Non-vacuity: three layers define t:n; the middle one by a reference to h; the twin writes h's
+    value there.  The premises hold, the stack renders, and the specification gives the value. *)
+Example C02_twin_stack_premises_hold :
+  let a n := YMap [(YStr "a", YSeq [YNum (NInt n)])] in
+  let l1 := YMap [(YStr "h", a 2%Z); (YStr "t", YMap [(YStr "n", a 1%Z)])] in
+  let l3 := YMap [(YStr "t", YMap [(YStr "n", a 3%Z)])] in
+  let ys := [l1; YMap [(YStr "t", YMap [(YStr "n", YStr "${h}")])]; l3] in
+  let ys' := [l1; YMap [(YStr "t", YMap [(YStr "n", a 2%Z)])]; l3] in
+  Forall clean_layer ys /\ Forall layer_ok ys' /\
+  exists m r v, merge_layers_try ys = Ok m /\ Forall2 (ytw m) ys ys' /\
+                render_with_self 60 (VMap m) = Ok r /\ deep_merge 10 ys' = SOk v /\ unflag r = v.
+Proof.
+  cbn zeta. split; [prove_layer_ok|]. split; [prove_layer_ok|].
+  eexists. eexists. eexists. split; [vm_compute; reflexivity|]. split.
+  - constructor; [apply ytw_refl|]. constructor; [|constructor; [apply ytw_refl | constructor]].
+    apply ytw_map_iff. eexists. split; [reflexivity|]. constructor; [|constructor]. split; [reflexivity|]. cbn [snd].
+    apply ytw_map_iff. eexists. split; [reflexivity|]. constructor; [|constructor]. split; [reflexivity|]. cbn [snd].
+    right. eexists. split; [vm_compute; reflexivity|].
+    eapply (denotes_of_render _ _ "${h}" 40 st0). vm_compute. reflexivity.
+  - split; [vm_compute; reflexivity|]. split; vm_compute; reflexivity.
+  Unshelve. cbn. repeat split; repeat constructor; cbn; intuition discriminate.
+Qed.
 
 (** Part 1 on its own, for any clean YAML (references allowed): merging the layers is the
     specification's key-by-key collection. *)
